@@ -1,5 +1,5 @@
 (* C10 - each operation sends its prescribed commands and advances only as prescribed. *)
-From LibFtp Require Import Bytes Decimal Reply Endpoint DataConn Client Client_Proofs Login_Proofs.
+From LibFtp Require Import Bytes Decimal Reply Endpoint DataConn Client Client_Proofs Login_Proofs Type_Proofs.
 Local Open Scope N_scope.
 
 (* a simple call (CWD CDUP PWD DELE MKD RMD SIZE MDTM STAT SYST HELP SITE NOOP ...) writes exactly its one line
@@ -87,3 +87,20 @@ Example C10_example_login_stops_at_negative :
   wire_events (w_trace w) = [WReply (mkReply 220 []); WLine [85;83;69;82;32;117]; WReply (mkReply 331 []);
                              WLine [80;65;83;83;32;112]; WReply (mkReply 530 [])].
 Proof. vm_compute. reflexivity. Qed.
+
+(* "the transfer type the client reports and converts by changes only when the server positively acknowledges a TYPE
+   command" - for EVERY call, state and server (Type_Proofs.v): no call other than set_transfer_type touches it (login
+   SENDS "TYPE I" / "TYPE A" for the configured type and leaves the setting alone; connect, transfers, refused and failing
+   calls likewise) ... *)
+Theorem C10_every_other_call_keeps_type : forall a w,
+  match a with ASetType _ => True | _ => c_type (w_cfg (snd (step w a))) = c_type (w_cfg w) end.
+Proof. exact step_keeps_type. Qed.
+Print Assumptions C10_every_other_call_keeps_type.
+
+(* ... and set_transfer_type changes it exactly when it returns a positive reply *)
+Theorem C10_set_type_changes_only_on_positive_reply : forall t w,
+  c_type (w_cfg (snd (step w (ASetType t)))) = c_type (w_cfg w) \/
+  (c_type (w_cfg (snd (step w (ASetType t)))) = t /\
+   exists r, fst (step w (ASetType t)) = OReturn (RvReply r) /\ is_positive r = true).
+Proof. exact set_type_changes_only_on_ack. Qed.
+Print Assumptions C10_set_type_changes_only_on_positive_reply.
